@@ -3,7 +3,7 @@ position, special shell-significant strings, and the data paths of the language.
 
 ALPHABET = [chr(c) for c in range(32, 127)] + ["\n", "\t"]
 
-SPECIALS = ["$(touch canary)", "`touch canary`", "; touch canary", "a;touch canary", "$HOME", "${PATH}", "$x", "*", "?", "[a-z]*", "-n", "-e", "-e x", "-E",
+SPECIALS = ["$(touch canary)", "`touch canary`", "; touch canary", "a;touch canary", "$HOME", "${PATH}", "$x", "*", "?", "[a-z]*", "-n", "-e", "-e x", "-E", "-notes.txt", "--help", "--", "-", "-rf x",
             "-neE", "a  b", " lead", "trail ", "  ", "\\n", "\\\\", "\\", "%s", "%d%%", "!", "!!", "#c", "~", "a\"b", "\"", "\"\"", "'", "a'b", "it's \"q\"",
             "a\nb", "a\tb", "$(", "${", "$((1+1))", "a&b", "a|b", "a>b", "a<b", "(x)", "{a,b}", "&&", "||", "x=1", "-", "--", "", "0", "a b c"]
 
